@@ -198,9 +198,13 @@ def run(ctx):
                 caps = [nshow(peel_calls(x)) for x in clo[2]]
                 for f in flow.closure_family(db, fn, clo[1]["closure"]):
                     rd = rules.ret_defs(f)
-                    if len(rd) == 1 and rd[0][1] == "expr" and rd[0][2][0] == "bin" and rd[0][2][1] == "Ge":
+                    if len(rd) == 1 and rd[0][1] == "expr" and rd[0][2][0] == "bin" and rd[0][2][1] in ("Ge", "Le"):
                         l, r = nshow(rd[0][2][2]), nshow(rd[0][2][3])
-                        okr = "arg3" in l and "Doc::threshold" in r and "arg7" in caps
+                        if rd[0][2][1] == "Le":      # threshold <= count
+                            l, r = r, l
+                        # the identity document handed to `action` (by type, not by position)
+                        docs = ["arg%d" % i for i in range(1, fn["nargs"] + 1) if re.search(r"identity::doc::Doc\b", fn["locals"][i][0])]
+                        okr = "arg3" in l and "Doc::threshold" in r and any(d in caps for d in docs)
         if n.endswith("Iterator::fold") and len(t[2]) > 2:
             clo = peel(expr_operand(fn, t[2][2]))
             src = nshow(peel_calls(expr_operand(fn, t[2][0])))
